@@ -175,7 +175,7 @@ def run(ctx):
         ctx.require(len(calls) == 1, f"{name}: expected one batch_evaluate_function call")
         okm = len(maps) == 1 and any(src(e) == "unit_hypercube" and t is True for e, t in guard_facts(fa, maps[0])) and fa.cfg.can_follow(maps[0], calls[0][0])
         # every other path (unit_hypercube false) reaches the call with x unchanged: no other assignment to x
-        others = fa.find(lambda s: isinstance(s, (ast.Assign, ast.AugAssign)) and any(isinstance(t, ast.Name) and t.id == x for t in (s.targets if isinstance(s, ast.Assign) else [s.target])))
+        others = fa.find(lambda s: isinstance(s, (ast.Assign, ast.AugAssign)) and any(isinstance(t, ast.Name) and t.id == x for t in (s.targets if isinstance(s, ast.Assign) else [s.target])) and not (isinstance(s, ast.Assign) and isinstance(s.value, ast.Name) and s.value.id == x))  # (`x = x` is what an inlined helper's pass-through arm leaves)
         ctx.ob("R-DOM", "C10.2", f, "unit-hypercube inputs are mapped to physical points before evaluation, and only then", okm and others == maps, f"mapping statements {[fa.text(m) for m in others]}")
         ctx.ob("R-DOM", "C10.2", f, "the (possibly mapped) batch itself is what is evaluated", src(_bef_args(calls[0][1]).get("x")) == x, f"`{src(calls[0][1])[:100]}`")
     f = ctx.fn(M + ".batch_evaluate_log_prior_unit_hypercube")
